@@ -37,7 +37,10 @@ def emit (verify : Bool) (done : Nat) (e : Ev) : List Call :=
     | .exc => (List.range e.nexc).map fun j => ⟨done, e.piece, some j⟩
     | .mismatch => [⟨done, e.piece, some 0⟩]
     | _ => [⟨done, e.piece, none⟩]
-  else [⟨done, e.piece, none⟩]
+  else
+    match e.kind with
+    | .exc => []       -- `GenerateCallback._call_callback`: `raise exceptions[0]` instead of calling the user
+    | _ => [⟨done, e.piece, none⟩]
 
 structure GateSt where
   prev : Int := -1            -- `_prev_call_time`
